@@ -130,7 +130,7 @@ Proof.
   destruct (select_some _ _ _ _ _ Hr) as [Hin _].
   split; [exact Hflat|]. split; [now apply registry_complete_partial|].
   assert (H : forallb (fun r => known_incomplete r
-                || (plain_method r && negb (r_rf r =? 2)
+                || (plain_method r && negb (rf_hashed r)
                     && match r_extra r with [] => true | _ => false end))
                 registry = true)
     by (vm_compute; reflexivity).
